@@ -205,14 +205,36 @@ example : (match ListenForm.ipPort (2 ^ 31 + 1) 12300 with
     | .ipPort a p => a < 2 ^ 32 ∧ p < 65536
     | .ipOnly a => a < 2 ^ 32) := by decide
 
+/-- **User name and password come back exactly as written, whatever printable characters they
+contain.**  For every user name without `:` (it may contain `@ / ? # [ ] %`, blanks, anything
+else), every password (any characters at all, including `:` and `@`; an empty one is reported
+as absent) and *every* non-empty host part without `@` — a name, a dotted quad, `host:port`,
+`[v6]:port`, a bare IPv6 literal, even garbage: `parse_hostport` splits at the *last* `@` and
+then at the *first* `:`, returns that user and password, and its port / host / failure are
+exactly those of the host part alone (`hostPart`).  There is no restriction on the characters
+of user and password in this theorem, so nothing about them is correspondence-only. -/
+theorem C16_hostport_userinfo (user pw : Option Str) (host : Str)
+    (hhost : host ≠ []) (hat : '@' ∉ host)
+    (hu : ∀ u, user = some u → ':' ∉ u) (hnone : user = none → pw = none) :
+    parseHostport (some (spellRemote user pw host)) =
+      (match hostPart host with
+       | .error e => .error e
+       | .ok (port, h) => .ok ⟨user, pwResult pw, port, h⟩) :=
+  parseHostport_userinfo user pw host hhost hat hu hnone
+
+example : "gw:2222".toList ≠ [] ∧ '@' ∉ "gw:2222".toList ∧ (∀ u, some "de/ploy".toList = some u → ':' ∉ u) ∧
+    ((some "de/ploy".toList : Option Str) = none → some "tok/en#7[?]".toList = (none : Option Str)) := by
+  refine ⟨by decide, by decide, ?_, ?_⟩
+  · intro u h; injection h with h; subst h; decide
+  · intro h; cases h
+
 /-- **`[user[:password]@]host` decomposes into the user, password and host it was built from**,
-for every user that contains no `:` (it may contain `@`), every password (it may contain `:`
-and `@`; an empty one is reported as absent), every non-empty host without `@` and `:`
-(a name, an ssh alias, a dotted quad): the code splits at the *last* `@` and then at the
-*first* `:`.  `_partial`: the branch taken when the host part contains a colon (`host:port`,
-`[v6]:port`, bare IPv6; `ipaddress` + `urlparse`) is modelled (`Args.parseHostport`,
-`urlparseHost`, `ipAddress`) and tied to the code by the correspondence run, but its general
-decomposition theorem is not proved here — only the instances below. -/
+for a host part without a colon (a name, an ssh alias, a dotted quad): then there is no port and
+the host is returned unchanged.  `_partial` concerns the *host part* only: what `hostPart`
+makes of a host part that contains a colon (`host:port`, `[v6]:port`, bare IPv6; `ipaddress`
++ `urlparse`) is modelled (`Args.hostPart`, `urlparseHost`, `ipAddress`) and tied to the code by
+the correspondence run, but its general port/host theorem is not proved — only the instances
+below.  User and password are covered in full by `C16_hostport_userinfo`. -/
 theorem C16_hostport_partial (user pw : Option Str) (host : Str)
     (hhost : host ≠ []) (hat : '@' ∉ host) (hcolon : ':' ∉ host)
     (hu : ∀ u, user = some u → ':' ∉ u) (hnone : user = none → pw = none) :
